@@ -2,6 +2,7 @@ package props
 
 import (
 	"bytes"
+	"crypto/x509"
 	"encoding/base64"
 	"encoding/xml"
 	"fmt"
@@ -69,6 +70,7 @@ func descriptorCert(md *types.EntityDescriptor, use string) (string, []string, i
 
 func runC19(c *mon.Ctx) {
 	base := BaseTime(c.Seed)
+	runC19BareSigner(c, base)
 	var kcs []KeyCfg
 	for _, k := range AllKeyCfgs() {
 		if k.EncField || k.EncSetter {
@@ -319,6 +321,61 @@ func Scribble(v reflect.Value) {
 		if v.CanSet() {
 			v.SetInt(v.Int() + 7)
 		}
+	}
+}
+
+// runC19BareSigner: the signing key is given through the setter as a bare signer without a certificate (next to an
+// ordinary encryption key pair). Whatever the metadata then says about signing, it must not name a key that does not sign.
+func runC19BareSigner(c *mon.Ctx, base time.Time) {
+	n := c.N(60, 1000)
+	for k := 0; k < n; k++ {
+		cs := c.Begin("bare-signing-key", k)
+		if cs == nil {
+			continue
+		}
+		r := cs.Rand()
+		sp, _, _ := NewSP(base)
+		enc := sim.Wide(sim.K("spenc"), base)
+		signKey := sim.K(pick(r, []string{"spsign", "spsign2", "spsignec"}))
+		encHow := pick(r, []string{"field", "setter", "both"})
+		if encHow != "setter" {
+			sp.SPKeyStore = &RSAKeyStore{C: enc}
+		}
+		if encHow != "field" {
+			sp.SetSPKeyStore(&saml2.KeyStore{Signer: enc.Key.Signer, Cert: enc.DER})
+		}
+		ks := &saml2.KeyStore{Signer: signKey.Signer}
+		if r.IntN(3) == 0 {
+			ks.Cert = []byte{}
+		}
+		sp.SetSPSigningKeyStore(ks)
+		sp.SignAuthnRequests = r.IntN(2) == 0
+		cs.Desc("enc=%s signer=%s sign=%v", encHow, signKey.Name, sp.SignAuthnRequests)
+		cs.Nontrivial(cs.Description())
+		published := 0
+		for vi, f := range []func() (*types.EntityDescriptor, error){sp.Metadata, func() (*types.EntityDescriptor, error) { return sp.MetadataWithSLO(24) }} {
+			var m *types.EntityDescriptor
+			var err error
+			pv, stack := mon.Guard(func() { m, err = f() })
+			if pv != nil {
+				cs.Violation("panic", "metadata panicked: %v\n%s", pv, trunc(stack, 1000))
+				continue
+			}
+			if err != nil || m == nil {
+				continue // refusing to publish is fine
+			}
+			sc, _, ns := descriptorCert(m, "signing")
+			if ns == 0 || sc == "" {
+				continue
+			}
+			published++
+			der, derr := base64.StdEncoding.DecodeString(sc)
+			xc, perr := x509.ParseCertificate(der)
+			if derr != nil || perr != nil || !signKey.PublicEqual(xc.PublicKey) {
+				cs.Violation("published-signing-key-is-not-the-signing-key", "%s publishes a signing certificate (%d bytes) whose key is not the configured signing key %s", []string{"Metadata", "MetadataWithSLO"}[vi], len(der), signKey.Name)
+			}
+		}
+		cs.Outcome(fmt.Sprintf("signing-descriptors-published:%d", published))
 	}
 }
 
